@@ -703,6 +703,12 @@ def _generic_loop(self, s, env, pc, rets, depth):
   functions): the body runs for *some* element; additions are guarded by an
   EXISTS atom; `continue` under a condition restricts the rest of the body."""
   it = core.norm(s.iter)
+  # named by what is iterated, with locals that merely name it resolved
+  try:
+    from sa import tpl
+    it = tpl.xnorm(self.fi, s.iter, s.iter)
+  except Exception:
+    pass
   ex = atom('EXISTS[%s]' % it)
   if isinstance(s.target, ast.Name):
     env[s.target.id] = Opaque(s.target.id)
